@@ -1,7 +1,8 @@
 (* C06 — all uses of a buffer happen-before its deallocation or exclusive reuse.
    Pinned statements over M8: an operational, view-based model of the release/acquire/relaxed fragment (stale reads included),
    threads nondeterministically running ANY programs of clone / slice / read / drop / into Vec / into BytesMut (core), BytesMut
-   writes on disjoint cells / split / freeze / reclaiming try_reclaim (cells), and the promotion race of an unshared Vec-backed
+   writes on disjoint cells / split / unsplit (one handle absorbs the cells of another of the same thread and releases its reference) /
+   freeze / reclaiming try_reclaim (cells; the copying path of reserve on a shared buffer is a read followed by a drop), and the promotion race of an unshared Vec-backed
    Bytes cloned through &Bytes (promote) — for ANY number of threads, ANY interleaving.  The memory orderings are PARAMETERS;
    the theorems hold for every assignment passing the decidable check ords_ok, which is evaluated (vm_compute) on the orderings
    read off the CURRENT source by translator T2 (Gen/Orderings.v), together with the atomic skeleton check. *)
@@ -39,7 +40,12 @@ Lemma C06_gen_promotion_ok : forallb Promote.ords_ok promote_instances = true. P
 Lemma C06_gen_skeleton_matches : skeleton_matches = true. Proof. reflexivity. Qed.
 
 Print Assumptions C06_core_race_free.
+(* unsplit is one of the actions the theorem quantifies over, and it is enabled (non-vacuity) *)
+Example C06_unsplit_is_modelled : forall o, exists s', Cells.tstep o (CellsMain.init_state {[0; 1; 2; 3]}
+  [ ({[ 0 := {| Cells.h_cells := {[0; 1]}; Cells.h_mut := true |}; 1 := {| Cells.h_cells := {[2; 3]}; Cells.h_mut := true |} ]}, 2) ]) 0 (Cells.AUnsplit 0 1) = Some (Cells.St s').
+Proof. exact CellsMain.unsplit_enabled. Qed.
 Print Assumptions C06_cells_race_free.
+Print Assumptions C06_unsplit_is_modelled.
 Print Assumptions C06_promotion_race_free.
 Print Assumptions C06_tight_fetch_sub.
 Print Assumptions C06_tight_promotion_load.
